@@ -95,6 +95,19 @@ def check_displacement_tensor(rec, name, lane, pos, cell, pbc, cutoff, D, F, dis
     except OverflowError:
         rec.ood(name)
         return
+    # second opinion on the oracle itself: a deliberately wide exhaustive lattice search (no radius argument) on a
+    # sample of pairs.  (ASE's find_mic was tried as cross-check and dropped: it returns non-minimal images for
+    # partial pbc in sheared cells and, rarely, for fully periodic sheared cells - verified against this wide search.)
+    if len(P) and len(I):
+        sel = rng.choice(len(I), size=min(4, len(I)), replace=False)
+        offs = np.array(list(itertools.product(range(-7, 8), repeat=len(P))), float) @ A
+        for k in sel:
+            wide = np.linalg.norm(diffs[k][None, :] - offs, axis=1).min()
+            rec.note("mic_oracle_cross_checked_pairs")
+            if dmic[k] > wide + 1e-9 * max(1.0, wide):
+                rec.note("mic_oracle_conflict")
+                rec.ood(name)
+                return
     Lmax = max([np.linalg.norm(cell[i]) for i in P] + [0.0])
     pinvA = np.linalg.pinv(A) if len(P) else None
     t = tol(pos, cell)
